@@ -439,8 +439,8 @@ impl Check for C04 {
     }
     fn lanes(&self, tier: Tier) -> Vec<(&'static str, usize, usize)> {
         match tier {
-            Tier::Quick => vec![("values", 60_000, 300), ("bytes", 120_000, 300)],
-            Tier::Thorough => vec![("values", 4_000_000, 500), ("bytes", 8_000_000, 500)],
+            Tier::Quick => vec![("values", 1_200_000, 300), ("bytes", 2_400_000, 300)],
+            Tier::Thorough => vec![("values", 24_000_000, 500), ("bytes", 48_000_000, 500)],
         }
     }
     fn replay_raw(&self, kind: &str, data: &[u8]) -> Option<Result<(), Failure>> {
